@@ -71,11 +71,13 @@ def build_ev(s, shift=0):
               build_battery(s["battery"]), estimated_departure=s.get("est_dep", s["departure"]) + shift)
 
 
-def build_events(desc, shift=0, session_order=None, queue=None):
+def build_events(desc, shift=0, session_order=None, queue=None, late=False):
     from acnportal.acnsim.events import EventQueue, PluginEvent, RecomputeEvent
     sessions = desc["sessions"] if session_order is None else [desc["sessions"][i] for i in session_order]
     evs = [build_ev(s, shift) for s in sessions]
     events = [PluginEvent(e.arrival, e) for e in evs] + [RecomputeEvent(t + shift) for t in desc.get("recompute", [])]
+    if late:  # the caller fills the queue only after the simulator has been constructed on it
+        return (queue if queue is not None else EventQueue()), evs, events
     if queue is not None:  # an existing (e.g. drained) queue object is refilled and used again
         queue.add_events(events)
         return queue, evs
@@ -121,6 +123,23 @@ def make_scripted_class():
             if self.hook is not None:
                 self.hook(self, t, active_sessions)
             sch, plain = gen.scripted_schedule(self.sd, self.net, t)
+            if self.sd.get("probe_p") and plain:
+                # admission control: before deciding, the scheduler asks the interface whether richer candidates (the same rows
+                # plus non-zero pilots for stations it will end up omitting) would be feasible; asking must not leave a trace
+                r_ = random.Random(f"{self.sd['seed']}:{t}:probe")
+                if r_.random() < self.sd["probe_p"]:
+                    L_ = len(next(iter(plain.values())))
+                    for _ in range(r_.randint(1, 2)):
+                        cand = {k: list(v) for k, v in plain.items()}
+                        for s_ in self.net["stations"]:
+                            if s_["id"] not in cand and r_.random() < 0.8:
+                                mx = gen.evse_max(s_["evse"])
+                                cand[s_["id"]] = [float(mx if mx != float("inf") else 48.0)] * L_
+                        try:
+                            self.interface.is_feasible(cand, linear=r_.random() < 0.3)
+                        except Exception:
+                            pass
+                        self.probed = getattr(self, "probed", 0) + 1
             if self.sd.get("buffered") and plain:
                 # a scheduler that keeps ONE pre-allocated mapping of numpy rows and overwrites the rows in place each period
                 buf = getattr(self, "_buf", None)
@@ -189,17 +208,27 @@ def build_scheduler(desc, sort_wrapper=None):
 
 
 def build_sim(desc, scheduler=None, network=None, shift=0, order=None, cons_order=None,
-              session_order=None, net_cls=None, net_kw=None, queue=None, **simkw):
+              session_order=None, net_cls=None, net_kw=None, queue=None, late_fill=False, **simkw):
     from acnportal.acnsim import Simulator
     net = network or build_network(desc["network"], cls=net_cls, order=order, cons_order=cons_order,
                                    **(net_kw or {}))
-    q, evs = build_events(desc, shift=shift, session_order=session_order, queue=queue)
+    pending_events = None
+    if late_fill:
+        q, evs, pending_events = build_events(desc, shift=shift, session_order=session_order, queue=queue, late=True)
+    else:
+        q, evs = build_events(desc, shift=shift, session_order=session_order, queue=queue)
     sch = scheduler if scheduler is not None else build_scheduler(desc)
     if getattr(sch, "sd", None) is not None and shift:
         sch.sd = dict(sch.sd, t0=sch.sd.get("t0", 0) + shift)
     np.random.seed(desc.get("np_seed", 0))
     sim = Simulator(net, sch, q, start_of(desc), period=desc["period"], verbose=False,
                     signals=desc.get("signals"), **simkw)
+    if pending_events is not None:
+        # the simulator was built on an empty queue; the very queue object it was given is filled now
+        half = len(pending_events) // 2
+        q.add_events(pending_events[:half])
+        for e_ in pending_events[half:]:
+            q.add_event(e_)
     return sim, evs
 
 
